@@ -146,6 +146,9 @@ func OpenBucket(urlStr string, bucketName string, mode OpenMode) (b *Bucket, err
 			// This hook is called when a SQLite connection opens.
 			// Register our custom JSON collator with it:
 			var collator sgbucket.JSONCollator
+			if err := verifConnect(conn); err != nil {
+				return err
+			}
 			return conn.RegisterCollation("JSON", func(s1, s2 string) int {
 				cmp := collator.CollateRaw([]byte(s1), []byte(s2))
 				return cmp
